@@ -759,3 +759,51 @@ Proof.
     rewrite <- (gb_concat nplayer ns) at 2. apply Forall2_flat_groups.
     intros [p pns] Hin. cbn [fst snd]. apply expected_player_eqv. apply (stream_groups_ok ns Hs B (p, pns) Hin).
 Qed.
+
+(* ================================================================== D. the canonical fixpoint, for reduced beats *)
+(* Fraction keeps beats in lowest terms; the decoder's beats (4 m R + 4 l) / R are not, so they are reduced before re-encoding *)
+Definition reduce_note (n : note) : note :=
+  let g := Z.gcd (nb_n n) (nb_d n) in
+  {| nb_n := nb_n n / g; nb_d := nb_d n / g; ncol := ncol n; ntype := ntype n; nplayer := nplayer n; nks := nks n |}.
+
+Lemma reduce_eqv a b : note_eqv a b -> 0 < nb_d b -> Z.gcd (nb_n b) (nb_d b) = 1 -> reduce_note a = b.
+Proof.
+  intros (Hb & Ha & Hc & Ht & Hp & Hk) Hbd Hg. unfold reduce_note.
+  set (g := Z.gcd (nb_n a) (nb_d a)).
+  assert (Hgpos : 0 < g) by (unfold g; pose proof (Z.gcd_nonneg (nb_n a) (nb_d a)); destruct (Z.eq_dec (Z.gcd (nb_n a) (nb_d a)) 0) as [E|E]; [apply Z.gcd_eq_0_r in E; lia|lia]).
+  destruct (Z.gcd_divide_l (nb_n a) (nb_d a)) as [an' Han]. destruct (Z.gcd_divide_r (nb_n a) (nb_d a)) as [ad' Had]. fold g in Han, Had.
+  assert (Hcop : Z.gcd an' ad' = 1).
+  { pose proof (Z.gcd_mul_mono_r_nonneg an' ad' g ltac:(lia)) as M. rewrite <- Han, <- Had in M. fold g in M. nia. }
+  assert (Hn : nb_n a / g = an') by (rewrite Han; apply Z.div_mul; lia).
+  assert (Hd : nb_d a / g = ad') by (rewrite Had; apply Z.div_mul; lia).
+  rewrite Hn, Hd.
+  assert (Had'pos : 0 < ad') by nia.
+  assert (Hx : an' * nb_d b = nb_n b * ad') by (rewrite Han, Had in Hb; nia).
+  assert (D1 : (ad' | nb_d b)).
+  { apply (Z.gauss ad' an' (nb_d b)); [exists (nb_n b); lia|rewrite Z.gcd_comm; exact Hcop]. }
+  assert (D2 : (nb_d b | ad')).
+  { apply (Z.gauss (nb_d b) (nb_n b) ad'); [exists an'; lia|rewrite Z.gcd_comm; exact Hg]. }
+  assert (Ed : ad' = nb_d b) by (apply Z.divide_antisym_nonneg; lia || assumption).
+  assert (En : an' = nb_n b) by (subst ad'; nia).
+  destruct b; simpl in *. subst. reflexivity.
+Qed.
+
+Lemma map_reduce_eqv : forall ns' ns, Forall2 note_eqv ns' ns ->
+  (forall n, In n ns -> 0 < nb_d n /\ Z.gcd (nb_n n) (nb_d n) = 1) -> map reduce_note ns' = ns.
+Proof.
+  induction 1 as [|a b l l' Hab H IH]; intro Hr; [reflexivity|]. cbn [map].
+  destruct (Hr b (or_introl eq_refl)) as [Hd Hg]. rewrite (reduce_eqv a b Hab Hd Hg), IH; [reflexivity|]. intros n Hn. apply Hr. right. exact Hn.
+Qed.
+
+(* rebuilding note data from its own notes reproduces the same text *)
+Theorem canonical_fixpoint cols ns text : (0 < cols)%nat -> StronglySorted plt ns ->
+  (forall n, In n ns -> is_note_char (ntype n) = true) ->
+  (forall n, In n ns -> Z.gcd (nb_n n) (nb_d n) = 1) ->
+  encode cols ns = Some text ->
+  exists ns', decode text = Some (cols, ns') /\ encode cols (map reduce_note ns') = Some text.
+Proof.
+  intros Hc Hs Ht Hred H. destruct (encode_decode cols ns text Hc Hs Ht H) as (ns' & Hd & Hf).
+  exists ns'. split; [exact Hd|]. rewrite (map_reduce_eqv ns' ns Hf); [exact H|].
+  intros n Hn. split; [|apply Hred; exact Hn].
+  rewrite encode_text in H. destruct (beats_ok ns) eqn:B; cbn [negb] in H; [|discriminate]. apply (beats_ok_in ns n B Hn).
+Qed.
